@@ -1,4 +1,179 @@
-//! C02 — not built yet.
+//! C02 — each party can run the protocol from its own data and the messages it receives.
+//! T-tie: kcheck (Model/Knows.v, proved sound) evaluated in Coq on the real compiler output.
+//! Oracle: the three-party executor with junk and independent seeds vs plaintext evaluation.
+use crate::coqfmt::*;
+use crate::exec3::*;
+use crate::export::*;
+use crate::gen::*;
+use crate::mpcgen::*;
 use crate::out::Out;
-pub const HEADER: &str = "From CC Require Import Base.Prelude.";
-pub fn run(_tier: &str, _seed: u64, _out: &mut Out) {}
+use crate::progen::*;
+use crate::rng::Rng;
+use ciphercore_base::data_types::*;
+use ciphercore_base::data_values::Value;
+use ciphercore_base::evaluators::simple_evaluator::SimpleEvaluator;
+use ciphercore_base::graphs::*;
+use ciphercore_base::inline::inline_ops::InlineConfig;
+use ciphercore_base::mpc::mpc_compiler::{compile_context, IOStatus};
+use serde_json::json;
+
+pub const HEADER: &str = "From CC Require Import Base.Prelude Base.Scalar Base.Ty Base.Shape Graph.Value Graph.IR Graph.Eval Model.Knows.";
+
+pub fn status_coq(s: &IOStatus) -> String {
+    match s { IOStatus::Party(p) => format!("(StParty {})", p), IOStatus::Public => "StPublic".into(), IOStatus::Shared => "StShared".into() }
+}
+pub fn cfg_coq(owners: &[IOStatus], outs: &[IOStatus], g: &Graph) -> String {
+    let o: Vec<String> = outs.iter().map(|s| if let IOStatus::Party(p) = s { format!("{}", p) } else { "0".into() }).collect();
+    let c: Vec<String> = certs(g).iter().map(|(i, p)| format!("({}, {})", i, p)).collect();
+    format!("(mkCfg {} [{}] [{}])", list(owners, |s| status_coq(s)), o.join("; "), c.join("; "))
+}
+
+/// elementwise x - a - b mod 2^w on array/scalar values
+fn sub2(x: &Value, a: &Value, b: &Value, t: &Type) -> Value {
+    let st = t.get_scalar_type();
+    let get = |v: &Value| -> Vec<u128> { if t.is_scalar() { vec![v.to_u128(st).unwrap()] } else { v.to_flattened_array_u128(t.clone()).unwrap() } };
+    let (xs, aa, bb) = (get(x), get(a), get(b));
+    let w = st.size_in_bits();
+    let m = |v: u128| if w >= 128 { v } else { v & ((1u128 << w) - 1) };
+    let r: Vec<u128> = xs.iter().zip(aa.iter()).zip(bb.iter()).map(|((x, a), b)| m(x.wrapping_sub(*a).wrapping_sub(*b))).collect();
+    if st == BIT { let r8: Vec<u8> = r.iter().map(|x| (*x & 1) as u8).collect(); return Value::from_flattened_array(&r8, st).unwrap(); }
+    Value::from_flattened_array(&r, st).unwrap()
+}
+fn add3(a: &Value, b: &Value, c: &Value, t: &Type) -> Option<Value> {
+    let st = t.get_scalar_type();
+    let get = |v: &Value| -> Option<Vec<u128>> { if t.is_scalar() { Some(vec![v.to_u128(st).ok()?]) } else { v.to_flattened_array_u128(t.clone()).ok() } };
+    let (aa, bb, cc) = (get(a)?, get(b)?, get(c)?);
+    let w = st.size_in_bits();
+    let m = |v: u128| if w >= 128 { v } else { v & ((1u128 << w) - 1) };
+    let r: Vec<u128> = aa.iter().zip(bb.iter()).zip(cc.iter()).map(|((x, a), b)| m(x.wrapping_add(*a).wrapping_add(*b))).collect();
+    if st == BIT { let r8: Vec<u8> = r.iter().map(|x| (*x & 1) as u8).collect(); return Value::from_flattened_array(&r8, st).ok(); }
+    Value::from_flattened_array(&r, st).ok()
+}
+
+pub fn junk(t: &Type, rng: &mut Rng) -> Value {
+    match rng.below(4) { 0 => Value::zero_of_type(t.clone()), 1 => Value::one_of_type(t.clone()).unwrap_or(Value::zero_of_type(t.clone())), _ => gen_value(t, rng) }
+}
+
+/// per-party local inputs for an owner vector
+pub fn party_inputs(input_types: &[Type], owners: &[IOStatus], plain: &[Value], rng: &mut Rng) -> Vec<[PV; 3]> {
+    let mut res = vec![];
+    for ((t, o), x) in input_types.iter().zip(owners.iter()).zip(plain.iter()) {
+        match o {
+            IOStatus::Public => res.push([PV::Val(x.clone()), PV::Val(x.clone()), PV::Val(x.clone())]),
+            IOStatus::Party(q) => {
+                let mut a: [PV; 3] = [PV::Val(junk(t, rng)), PV::Val(junk(t, rng)), PV::Val(junk(t, rng))];
+                a[*q as usize] = PV::Val(x.clone());
+                res.push(a);
+            }
+            IOStatus::Shared => {
+                let s0 = gen_value(t, rng);
+                let s1 = gen_value(t, rng);
+                let s2 = sub2(x, &s0, &s1, t);
+                let sh = [s0, s1, s2];
+                let mut a: Vec<PV> = vec![];
+                for p in 0..3usize {
+                    let mut slots = vec![PV::Val(junk(t, rng)), PV::Val(junk(t, rng)), PV::Val(junk(t, rng))];
+                    slots[p] = PV::Val(sh[p].clone());
+                    slots[(p + 1) % 3] = PV::Val(sh[(p + 1) % 3].clone());
+                    a.push(PV::Tup(slots));
+                }
+                res.push([a[0].clone(), a[1].clone(), a[2].clone()]);
+            }
+        }
+    }
+    res
+}
+
+pub struct Compiled { pub ctx: Context, pub g: Graph }
+pub fn compile(p: &Prog, owners: &[IOStatus], outs: &[IOStatus], mode: InlineConfig) -> Outcome<Compiled> {
+    let ctx = p.ctx.clone();
+    let (o2, u2) = (owners.to_vec(), outs.to_vec());
+    match observe(|| compile_context(ctx, o2, u2, mode, || SimpleEvaluator::new(None))) {
+        Outcome::Ok(mc) => { let c = mc.get_context(); let g = c.get_main_graph().unwrap(); Outcome::Ok(Compiled { ctx: c, g }) }
+        Outcome::Err => Outcome::Err,
+        Outcome::Panic => Outcome::Panic,
+    }
+}
+
+/// Oracle: every output party ends with the plaintext result (or consistent shares).
+pub fn check_outputs(c: &Compiled, src_out_t: &Type, outs: &[IOStatus], r: &Exec3Result, plain_out: &Value, out: &mut Out, desc: &serde_json::Value, class_prefix: &str) -> bool {
+    let oid = c.g.get_output_node().unwrap().get_id() as usize;
+    let mut ok = true;
+    if !outs.is_empty() {
+        for s in outs {
+            if let IOStatus::Party(q) = s {
+                let v = r.vals[*q as usize][oid].extract();
+                if v.as_ref() != Some(plain_out) {
+                    out.violation(&format!("{}-output-party-wrong-result", class_prefix), desc.clone(), format!("party {} holds {} instead of the plaintext result", q, match v { Some(_) => "a different value", None => "poison" }));
+                    ok = false;
+                } else { out.oracle_ok(); }
+            }
+        }
+    } else if src_out_t.is_array() || src_out_t.is_scalar() {
+        // shared output: slot j as seen by party j and party j-1 must agree; the slots must sum to the result
+        let mut slots: Vec<Option<Value>> = vec![];
+        for j in 0..3usize {
+            let a = r.vals[j][oid].get(j).extract();
+            let b = r.vals[(j + 2) % 3][oid].get(j).extract();
+            if a.is_none() || a != b { out.violation(&format!("{}-shared-output-inconsistent", class_prefix), desc.clone(), format!("slot {} differs between party {} and party {}", j, j, (j + 2) % 3)); ok = false; }
+            slots.push(a);
+        }
+        if ok {
+            let s = add3(slots[0].as_ref().unwrap(), slots[1].as_ref().unwrap(), slots[2].as_ref().unwrap(), src_out_t);
+            if s.as_ref() != Some(plain_out) { out.violation(&format!("{}-shared-output-does-not-reconstruct", class_prefix), desc.clone(), "s0+s1+s2 differs from the plaintext result".into()); ok = false; } else { out.oracle_ok(); }
+        }
+    }
+    ok
+}
+
+pub fn run_program(p: &Prog, owners: &[IOStatus], outs: &[IOStatus], mname: &str, mode: InlineConfig, rng: &mut Rng, out: &mut Out, class_prefix: &str, n_exec: usize, truncating: bool) {
+    let ops_desc: Vec<String> = p.g.get_nodes().iter().map(|n| op_name(&n.get_operation())).collect();
+    let desc = json!({"ops": ops_desc, "input_types": p.input_types.iter().map(|t| format!("{}", t)).collect::<Vec<_>>(), "owners": owners.iter().map(status_str).collect::<Vec<_>>(), "outputs": outs.iter().map(status_str).collect::<Vec<_>>(), "inline": mname});
+    let c = match compile(p, owners, outs, mode) { Outcome::Ok(c) => c, Outcome::Err => { out.stat("compile:Err"); return; } Outcome::Panic => { out.stat("compile:Panic"); out.violation("compiler-panics", desc, "compile_context panicked".into()); return; } };
+    out.stat("compile:Ok");
+    out.stat(&format!("owners:{}", owners.iter().map(status_str).collect::<Vec<_>>().join(",")));
+    out.stat(&format!("outputs:{}", outs.iter().map(status_str).collect::<Vec<_>>().join(",")));
+    out.stat(&format!("inline:{}", mname));
+    let n = c.g.get_nodes().len();
+    out.stat_n("compiled_nodes", n as u64);
+    let private = owners.iter().any(|o| *o != IOStatus::Public);
+    let oid = c.g.get_output_node().unwrap().get_id();
+    // T: the verified analysis accepts the compiler's output
+    out.case("T:kcheck", format!("kcheck {} {} {}", cfg_coq(owners, outs, &c.g), nodes_coq(&c.g), oid), "true".into(), desc.clone(), private);
+    // oracle: three-party executions with junk and independent seeds
+    let src_out_t = p.g.get_output_node().unwrap().get_type().unwrap();
+    for _ in 0..n_exec {
+        let plain: Vec<Value> = p.input_types.iter().map(|t| gen_value(t, rng)).collect();
+        let pv = eval_all(&p.g, &plain, [3u8; 16]);
+        let plain_out = match pv.last().and_then(|_| pv[p.g.get_output_node().unwrap().get_id() as usize].clone().ok()) { Some(v) => v, None => { out.stat("plain:Err"); continue; } };
+        let ins = party_inputs(&p.input_types, owners, &plain, rng);
+        let mut seeds = [[0u8; 16]; 3];
+        for s in seeds.iter_mut() { for b in s.iter_mut() { *b = rng.next() as u8; } }
+        let r = exec3(&c.g, &ins, seeds);
+        if truncating { out.stat("exec3:truncating-skipped-exact-compare"); continue; }
+        check_outputs(&c, &src_out_t, outs, &r, &plain_out, out, &desc, class_prefix);
+    }
+}
+
+pub fn run(tier: &str, seed: u64, out: &mut Out) {
+    let mut rng = Rng::new(seed ^ 0xC02);
+    let (n_frag, n_wide) = match tier { "thorough" => (300, 300), "search" => (400, 600), _ => (24, 30) };
+    let modes = inline_modes();
+    let all_outs = output_subsets();
+    let int_sts = [UINT8, INT16, UINT32, INT32, UINT64, INT64];
+    for i in 0..(n_frag + n_wide) {
+        let wide = i >= n_frag;
+        let st = if i % 7 == 6 { BIT } else { *rng.pick(&int_sts) };
+        let ops: Vec<&'static str> = if st == BIT { vec!["add", "mul", "mul", "stack", "get", "reshape", "constant", "sum"] } else if wide { MPC_OPS.to_vec() } else { FRAGMENT_OPS.to_vec() };
+        let (ni, no) = (1 + rng.below(3) as usize, 1 + rng.below(6) as usize);
+        let p = gen_mpc_program(&mut rng, &ops, ni, no, &[st]);
+        let truncating = p.g.get_nodes().iter().any(|n| matches!(n.get_operation(), Operation::Truncate(_)));
+        // owner vectors: all 5^n for n = 1, sampled otherwise; outputs: rotate through all 8 subsets
+        let ovs: Vec<Vec<IOStatus>> = if ni == 1 && tier != "quick" { owner_vectors(1) } else { (0..if tier == "quick" { 1 } else { 3 }).map(|_| random_owners(ni, &mut rng)).collect() };
+        for (k, owners) in ovs.iter().enumerate() {
+            let outs = all_outs[(i + k) % 8].clone();
+            let (mname, mode) = modes[(i + k) % 3].clone();
+            run_program(&p, owners, &outs, mname, mode, &mut rng, out, "exec3", 2, truncating);
+        }
+    }
+}
